@@ -24,7 +24,7 @@ PatBits(p, w) ==
 (* fields that have a setter in the API, with values restricted to the field's range *)
 NoSetter == {<< "can", "dlc" >>, << "can", "dataLength" >>, << "canfd", "dlc" >>, << "canfd", "dataLength" >>,
              << "lin", "dataLength" >>, << "eth", "dataLength" >>, << "tecmpHeader", "isTecmp" >>,
-             << "tecmpHeader", "dataFlags" >>, << "payloadType", "high" >>}
+             << "tecmpHeader", "dataFlags" >>, << "payloadType", "high" >>, << "payload", "high" >>}
 InRange(c, f, bits) ==
     /\ (f.n = "sampleDt" => bits \in {<< 0, 0 >>, << 0, 1 >>})
     /\ (c = "packet" /\ f.n = "segmentType" => SubSeq(bits, 1, 6) = << 0, 0, 0, 0, 0, 0 >>)
